@@ -664,19 +664,60 @@ func oracleC05(g *Gen, n int) {
 	for _, fs := range c05NearMissLists(g.Rand, true) {
 		c05Check(g, "example.com/m", "v1.0.0", fs)
 	}
+	// READER BEHAVIOUR of File.Open (util_c05readers.go): the property quantifies over File values, and
+	// until now every file of every list was read through a bytes.Reader.  Exhaustive on a small scope:
+	// every reading of the sweep on every small list (up to the first that fails), then (for the readings
+	// that passed) on the lists with contents around the buffer sizes; the first failing large list ends the sweep (its op line is
+	// long).  The random lists below get a reading each, picked by a hash of their op line.
+	largeFailed := false
+	for _, rd := range c05ReadingSweep() {
+		before := len(g.st.Failures)
+		for _, fs := range c05ReaderLists(true) {
+			c05CheckRead(g, "example.com/m", "v1.0.0", fs, rd, "reader-sweep")
+			if len(g.st.Failures) != before {
+				break // one failing input per reading (the smallest list)
+			}
+		}
+		if len(g.st.Failures) != before || largeFailed {
+			continue
+		}
+		for _, fs := range c05ReaderLists(false) {
+			c05CheckRead(g, "example.com/m", "v1.0.0", fs, rd, "reader-sweep-large")
+			if len(g.st.Failures) != before {
+				largeFailed = true
+				break
+			}
+		}
+	}
 	for i := 0; i < n; i++ {
 		mp, mv := zipuPickMod(g.Rand, 5)
-		c05Check(g, mp, mv, c05GenList(g))
+		fs := c05GenList(g)
+		c05CheckRead(g, mp, mv, fs, c05ReadingFor(zipuFilesTok(fs)), "")
 	}
 }
 
-// c05Check states the property for one module version and file list.
+// c05Check states the property for one module version and file list, the files read through a bytes.Reader.
 func c05Check(g *Gen, mp, mv string, fs []*zipuFile) {
+	c05CheckRead(g, mp, mv, fs, c05Plain, "")
+}
+
+// c05CheckRead states the property for one module version and file list whose regular files deliver
+// their content as rd says (the file check and Create are given the same File values).
+func c05CheckRead(g *Gen, mp, mv string, fs []*zipuFile, rd c05Reading, tag string) {
 	for once := true; once; once = false {
 		m := module.Version{Path: mp, Version: mv}
-		line := "zip.create " + hx(mp) + " " + hx(mv) + " " + zipuFilesTok(fs)
-		data, cerr := zipuCreate(m, fs)
-		cf, cfErr := modzip.CheckFiles(zipuAsFiles(fs))
+		// the op line is rendered on failure only (hex of every content, go.mod parse per file)
+		line := func() string { return "zip.create " + hx(mp) + " " + hx(mv) + " " + zipuFilesTok(fs) }
+		files := c05AsFiles(fs, rd)
+		via := "files opened as: " + rd.String()
+		if tag != "" {
+			g.Case(tag)
+		}
+		if rd.kind != 'p' {
+			g.Case("reading-" + string(rd.kind))
+		}
+		data, cerr := c05CreateFiles(m, files)
+		cf, cfErr := modzip.CheckFiles(files)
 
 		// creation succeeds exactly when the file check reports no error
 		// (valid module path with matching canonical version, contents of the reported size)
@@ -690,7 +731,7 @@ func c05Check(g *Gen, mp, mv string, fs []*zipuFile) {
 		if modOK && honest {
 			g.Case("create-iff-checkfiles")
 			if (cerr == nil) != (cfErr == nil) {
-				g.Fail("C05 create-iff: Create and CheckFiles disagree on a valid module with honest sizes", "create="+zipuErrKind(cerr)+" checkfiles-ok="+showBool(cfErr == nil), line)
+				g.Fail("C05 create-iff: Create and CheckFiles disagree on a valid module with honest sizes", "create="+zipuErrKind(cerr)+" checkfiles-ok="+showBool(cfErr == nil)+"; "+via, line())
 				continue
 			}
 		}
@@ -708,17 +749,17 @@ func c05Check(g *Gen, mp, mv string, fs []*zipuFile) {
 			// passes the zip check with no invalid entries
 			zcf, zerr := modzip.CheckZip(m, zp)
 			if zerr != nil || len(zcf.Invalid) != 0 || zcf.SizeError != nil {
-				g.Fail("C05 roundtrip: CheckZip rejects an archive produced by Create", zipuErrKind(zerr), line)
+				g.Fail("C05 roundtrip: CheckZip rejects an archive produced by Create", zipuErrKind(zerr)+"; "+via, line())
 				return
 			}
 			// extracts without error
 			o := zipuUnzip(tmp, zp, m, "me"[g.Intn(2)])
 			if o.err != nil {
-				g.Fail("C05 roundtrip: Unzip fails on an archive produced by Create", zipuErrKind(o.err), line)
+				g.Fail("C05 roundtrip: Unzip fails on an archive produced by Create", zipuErrKind(o.err)+"; "+via, line())
 				return
 			}
 			if len(o.outside) != 0 {
-				g.Fail("C05 roundtrip: Unzip touched something outside the target", strings.Join(o.outside, ","), line)
+				g.Fail("C05 roundtrip: Unzip touched something outside the target", strings.Join(o.outside, ",")+"; "+via, line())
 				return
 			}
 			// the extracted tree is exactly the files CheckFiles reports as valid, byte for byte
@@ -733,13 +774,13 @@ func c05Check(g *Gen, mp, mv string, fs []*zipuFile) {
 				want[v] = byPath[v].content
 			}
 			if len(want) != len(cf.Valid) || len(o.files) != len(want) {
-				g.Fail("C05 roundtrip: extracted tree is not the set of valid files", "extracted "+itoa(len(o.files))+" valid "+itoa(len(cf.Valid)), line)
+				g.Fail("C05 roundtrip: extracted tree is not the set of valid files", "extracted "+itoa(len(o.files))+" valid "+itoa(len(cf.Valid))+"; "+via, line())
 				return
 			}
 			for p, c := range want {
 				got, ok := o.files[p]
 				if !ok || !bytes.Equal(got, c) {
-					g.Fail("C05 roundtrip: an extracted file is missing or differs from the valid file's content", hx(p), line)
+					g.Fail("C05 roundtrip: an extracted file is missing or differs from the valid file's content", hx(p)+" ("+p+"): extracted "+itoa(len(got))+" bytes, the file given to Create has "+itoa(len(c))+"; "+via, line())
 					return
 				}
 			}
@@ -749,21 +790,21 @@ func c05Check(g *Gen, mp, mv string, fs []*zipuFile) {
 			prefix := mp + "@" + mv + "/"
 			for i, e := range es {
 				if !strings.HasPrefix(e.name, prefix) {
-					g.Fail("C05 restrictions: entry without the module prefix", hx(e.name), line)
+					g.Fail("C05 restrictions: entry without the module prefix", hx(e.name), line())
 					return
 				}
 				rel := e.name[len(prefix):]
 				if rel != path.Clean(rel) || module.CheckFilePath(rel) != nil {
-					g.Fail("C05 restrictions: entry path is not a valid clean path", hx(e.name), line)
+					g.Fail("C05 restrictions: entry path is not a valid clean path", hx(e.name), line())
 					return
 				}
 				if strings.EqualFold(path.Base(rel), "go.mod") && rel != "go.mod" {
-					g.Fail("C05 restrictions: go.mod not at the root in lower case", hx(e.name), line)
+					g.Fail("C05 restrictions: go.mod not at the root in lower case", hx(e.name), line())
 					return
 				}
 				for _, e2 := range es[:i] {
 					if strings.EqualFold(e.name, e2.name) {
-						g.Fail("C05 restrictions: two entries equal under case folding", hx(e.name)+" "+hx(e2.name), line)
+						g.Fail("C05 restrictions: two entries equal under case folding", hx(e.name)+" "+hx(e2.name), line())
 						return
 					}
 				}
